@@ -518,11 +518,51 @@ def _counted_while_to_for(func):
     return new
 
 
+def _deref_aliases(func):
+    """copy of `func` in which a local that is bound exactly once, to an
+    attribute of `self` (`sizes = self._group_sizes`, also a helper
+    parameter bound at an expanded call), is replaced by that attribute
+    wherever it is read; the attribute itself is not re-bound in `func`"""
+    stores = {}
+    for n in walk(func):
+        if isinstance(n, ast.Name) and isinstance(n.ctx, (ast.Store,
+                                                          ast.Del)):
+            stores[n.id] = stores.get(n.id, 0) + 1
+    params = {a.arg for a in func.args.args + func.args.kwonlyargs}
+    rebound = {t.attr for n in walk(func) if isinstance(n, ast.Assign)
+               for t in n.targets if is_self_attr(t)}
+    mapping = {}
+    for n in walk(func):
+        if isinstance(n, ast.Assign) and len(n.targets) == 1 \
+                and isinstance(n.targets[0], ast.Name) \
+                and is_self_attr(n.value) \
+                and stores.get(n.targets[0].id) == 1 \
+                and n.targets[0].id not in params \
+                and n.value.attr not in rebound:
+            mapping[n.targets[0].id] = n.value
+    if not mapping:
+        return func
+    new = _clone(func)
+
+    class T(ast.NodeTransformer):
+        def visit_Name(self, node):
+            if isinstance(node.ctx, ast.Load) and node.id in mapping:
+                return ast.copy_location(_clone(mapping[node.id]), node)
+            return node
+    T().visit(new)
+    ast.fix_missing_locations(new)
+    _relink(new, getattr(func, "parent", None))
+    if hasattr(func, "expanded_from"):
+        new.expanded_from = func.expanded_from
+    return new
+
+
 def wfunc(repo, rel, qual):
-    """function with calls to private helpers expanded (one level) and
-    counted while-loops written as for-range loops"""
-    return _counted_while_to_for(
-        expand_private_calls(repo, rel, repo.func(rel, qual)))
+    """function with calls to private helpers expanded (one level), locals
+    that alias `self.<attr>` resolved and counted while-loops written as
+    for-range loops"""
+    return _counted_while_to_for(_deref_aliases(
+        expand_private_calls(repo, rel, repo.func(rel, qual))))
 
 
 # ----------------------------------------------------------------------
@@ -1184,6 +1224,158 @@ def _width_sources(e, M):
                         f"`{short(e, 40)}` not recognised")
 
 
+_WIDTH_SAMPLES = [
+    [],
+    ["short"],
+    ["x" * 150, "tail"],
+    ["a", "\u00e4" * 80, "b" * 101],          # 160 bytes, 80 characters
+    ["\u20ac" * 120, "z" * 250, ""],           # 360 bytes, 120 characters
+]
+
+
+def _pure_eval(e, env, func, depth=0):
+    """evaluate a side-effect free expression over ints / strings / bytes /
+    lists built from `env`, single-assignment locals and a few builtins;
+    anything else is an AnalysisError (nothing of the repository runs)"""
+    import itertools as _it
+    if depth > 25:
+        raise AnalysisError("width expression too deep")
+
+    def ev(x, env_=None):
+        return _pure_eval(x, env if env_ is None else env_, func, depth + 1)
+    if isinstance(e, ast.Constant) and isinstance(
+            e.value, (int, str, bytes, type(None), bool)):
+        return e.value
+    if isinstance(e, ast.Name):
+        if e.id in env:
+            return env[e.id]
+        defs = [n for n in walk(func) if isinstance(n, ast.Assign)
+                and any(isinstance(t, ast.Name) and t.id == e.id
+                        for t in n.targets)]
+        if len(defs) == 1:
+            return ev(defs[0].value)
+        raise AnalysisError(f"width expression: `{e.id}` not evaluable")
+    if isinstance(e, (ast.List, ast.Tuple)):
+        out = []
+        for x in e.elts:
+            if isinstance(x, ast.Starred):
+                out += list(ev(x.value))
+            else:
+                out.append(ev(x))
+        return out
+    if isinstance(e, ast.BinOp) and isinstance(e.op, (ast.Add, ast.Sub)):
+        a, b = ev(e.left), ev(e.right)
+        if isinstance(e.op, ast.Sub):
+            if isinstance(a, int) and isinstance(b, int):
+                return a - b
+            raise AnalysisError("width expression: subtraction")
+        if type(a) is type(b) and isinstance(a, (int, list)):
+            return a + b
+        raise AnalysisError("width expression: addition of mixed types")
+    if isinstance(e, ast.IfExp):
+        return ev(e.body) if ev(e.test) else ev(e.orelse)
+    if isinstance(e, ast.Compare) and len(e.ops) == 1:
+        a, b = ev(e.left), ev(e.comparators[0])
+        try:
+            return _cmp_py(e.ops[0], a, b)
+        except TypeError:
+            raise AnalysisError("width expression: comparison")
+    if isinstance(e, (ast.ListComp, ast.GeneratorExp)) \
+            and len(e.generators) == 1 and isinstance(
+            e.generators[0].target, ast.Name):
+        g = e.generators[0]
+        out = []
+        for item in list(ev(g.iter)):
+            env2 = dict(env)
+            env2[g.target.id] = item
+            if all(ev(c, env2) for c in g.ifs):
+                out.append(ev(e.elt, env2))
+        return out
+    if isinstance(e, ast.Call):
+        nm = call_name(e) or ""
+        args = []
+        for a in e.args:
+            if isinstance(a, ast.Starred):
+                args += list(ev(a.value))
+            else:
+                args.append(a)
+        if nm == "isinstance" and len(e.args) == 2:
+            want = {"bytes": bytes, "str": str}.get(txt(e.args[1]))
+            if want is None:
+                raise AnalysisError("width expression: isinstance")
+            return isinstance(ev(e.args[0]), want)
+        if nm == "map" and len(e.args) == 2 and txt(e.args[0]) == "len":
+            return [len(x) for x in ev(e.args[1])]
+        vals = [a if not isinstance(a, ast.AST) else ev(a) for a in args]
+        kw = {k.arg: ev(k.value) for k in e.keywords}
+        if nm in ("max", "min") and set(kw) <= {"default"}:
+            try:
+                return (max if nm == "max" else min)(*vals, **kw)
+            except (TypeError, ValueError):
+                raise AnalysisError(f"width expression: {nm}() of "
+                                    f"{vals!r:.40}")
+        if nm == "len" and len(vals) == 1 and not kw:
+            return len(vals[0])
+        if nm in ("list", "tuple", "sorted") and len(vals) == 1 and not kw:
+            return sorted(vals[0]) if nm == "sorted" else list(vals[0])
+        if nm in ("itertools.chain", "chain") and not kw:
+            return list(_it.chain(*vals))
+        if nm in ("itertools.chain.from_iterable", "chain.from_iterable") \
+                and len(vals) == 1:
+            return list(_it.chain.from_iterable(vals[0]))
+        if nm == "sum" and len(vals) == 1 and not kw:
+            return sum(vals[0])
+        if isinstance(e.func, ast.Attribute) and e.func.attr == "encode" \
+                and len(vals) <= 1 and not kw:
+            obj = ev(e.func.value)
+            if isinstance(obj, str):
+                return obj.encode(*vals)
+            raise AnalysisError("width expression: encode of non-str")
+    raise AnalysisError(f"width expression part `{short(e, 40)}` cannot be "
+                        f"evaluated")
+
+
+def _cmp_py(op, a, b):
+    if isinstance(op, ast.Lt):
+        return a < b
+    if isinstance(op, ast.LtE):
+        return a <= b
+    if isinstance(op, ast.Gt):
+        return a > b
+    if isinstance(op, ast.GtE):
+        return a >= b
+    if isinstance(op, ast.Eq):
+        return a == b
+    if isinstance(op, ast.NotEq):
+        return a != b
+    if isinstance(op, ast.Is):
+        return a is b
+    if isinstance(op, ast.IsNot):
+        return a is not b
+    raise AnalysisError("width expression: comparison operator")
+
+
+def _width_by_evaluation(expr, func, LIST, M):
+    """the width expression, evaluated with `lines` = sample lines and
+    LIST = their UTF-8 encodings, is at least the longest encoded line for
+    every sample"""
+    lines = _lines_param(func)
+    for sample in _WIDTH_SAMPLES:
+        enc = [x.encode("utf-8") for x in sample]
+        env = {lines: list(sample), LIST: enc}
+        val = _pure_eval(expr, env, func)
+        if not isinstance(val, int) or isinstance(val, bool):
+            raise AnalysisError(f"write_text: `{M}` does not evaluate to a "
+                                f"number")
+        need = max([len(b) for b in enc] + [0])
+        if val < need:
+            return False, (
+                f"`{M}` = `{short(expr, 50)}` evaluates to {val} for lines "
+                f"whose longest encoding has {need} bytes: the dataset is "
+                f"created too narrow")
+    return True, ""
+
+
 def _r13_comprehension_form(ctx, func, fr, cfg, M):
     """M = max(<constants> + [len(b) for b in LIST]) with LIST the stored
     list of encoded lines"""
@@ -1195,17 +1387,23 @@ def _r13_comprehension_form(ctx, func, fr, cfg, M):
         raise AnalysisError(f"write_text: definition of `{M}` not "
                             f"recognised")
     wdef = wide[0]
-    items = _width_sources(wdef.value, M)
     stored = _stored_lists(func, fr)
     if len(stored) != 1:
         raise AnalysisError("write_text: stored list not identified")
     LIST = next(iter(stored))
-    lens = [it for it in items if it[0] == "lens"]
-    ok = any(it[1] == LIST and it[2] and not it[3] for it in lens)
+    try:
+        items = _width_sources(wdef.value, M)
+        lens = [it for it in items if it[0] == "lens"]
+        ok = any(it[1] == LIST and it[2] and not it[3] for it in lens)
+        why = (f"`{M}` = `{short(wdef.value, 50)}` does not take the "
+               f"length of every element of `{LIST}`")
+    except AnalysisError:
+        # not one of the listed shapes: evaluate the expression on a family
+        # of line lists (raw lines and their encodings; multi-byte
+        # characters make the two lengths differ)
+        ok, why = _width_by_evaluation(wdef.value, func, LIST, M)
     ctx.ob("R1.3", ok, f"`{M}` is the maximum over every stored line" if ok
-           else f"`{M}` = `{short(wdef.value, 50)}` does not take the "
-           f"length of every element of `{LIST}`", node=wdef,
-           label="width is max over all lines")
+           else why, node=wdef, label="width is max over all lines")
     if not ok:
         return
     # the measured list is the stored list: same reaching definitions and
@@ -1429,19 +1627,48 @@ def _r13_guard(ctx, func, fr, cfg, M):
             return "eq" if isinstance(node.ops[0], ast.Eq) else "ne"
         return None
 
+    free_atoms = {}
+
+    def res_free(node):
+        """like res(); anything else that is not a connective of the
+        predicate (writer mode, session flags, …) is a free boolean"""
+        r_ = res(node)
+        if r_ is not None:
+            return r_
+        if isinstance(node, (ast.BoolOp, ast.Constant)) or (
+                isinstance(node, ast.UnaryOp)
+                and isinstance(node.op, ast.Not)):
+            return None
+        if isinstance(node, ast.Compare) and any(
+                res(x) is not None for x in ast.walk(node)):
+            return None
+        if isinstance(node, ast.BinOp) and any(
+                res(x) is not None for x in ast.walk(node)):
+            return None
+        return free_atoms.setdefault(txt(node), f"u{len(free_atoms)}")
+
     def establishes(src, lab, dst):
+        """taking this branch guarantees item size >= longest new line –
+        for every ordering of the two and every value of the other atoms
+        of the test (the guarantee must not depend on the writer mode)"""
         if src.kind != "test" or lab not in ("T", "F"):
             return False
         test = src.ast.test
         if not mentions_width(test):
             return False
+        eval_pred(test, _Anything({"w": 1.0, "m": 1.0, "eq": True,
+                                   "ne": False}), res_free)
+        syms = sorted(free_atoms.values())
         good = True
-        for env in orderings(["w", "m"]):
-            e = dict(env)
-            e["eq"], e["ne"] = True, False
-            if bool(eval_pred(test, e, res)) == (lab == "T"):
-                if not e["w"] >= e["m"]:
-                    good = False
+        for bits in range(2 ** len(syms)):
+            for env in orderings(["w", "m"]):
+                e = dict(env)
+                e["eq"], e["ne"] = True, False
+                e.update({sy: bool(bits >> k_ & 1)
+                          for k_, sy in enumerate(syms)})
+                if bool(eval_pred(test, e, res_free)) == (lab == "T"):
+                    if not e["w"] >= e["m"]:
+                        good = False
         return good
 
     def rebinds(n):
@@ -1456,8 +1683,10 @@ def _r13_guard(ctx, func, fr, cfg, M):
            "every store into an existing dataset is dominated by a test "
            "that its item size holds the longest new line" if ok else
            "lines are stored into an existing fixed-width dataset without "
-           f"comparing its item size with `{M}`: longer lines are silently "
-           "truncated", node=fr.open,
+           f"comparing its item size with `{M}`"
+           + (f" (the test also depends on {sorted(free_atoms)}: when that "
+              f"is false nothing is checked)" if free_atoms else "")
+           + ": longer lines are silently truncated", node=fr.open,
            label="append path checks the item size")
     # M must not change after the existing dataset was opened
     m_ids = set()
@@ -2976,10 +3205,25 @@ def r18(ctx, repo):
         f = wfunc(repo, WR, q)
         cfg = CFG(f)
         dels = [n for n in walk(f) if isinstance(n, ast.Delete)]
+        def pure_mode_test(t):
+            """only writer-mode comparisons and membership tests – the
+            shape of the replace guard (a test that also looks at the data,
+            e.g. the item size, belongs to another rule)"""
+            if isinstance(t, ast.BoolOp):
+                return all(pure_mode_test(v) for v in t.values)
+            if isinstance(t, ast.UnaryOp) and isinstance(t.op, ast.Not):
+                return pure_mode_test(t.operand)
+            if isinstance(t, ast.Compare) and len(t.ops) == 1:
+                if isinstance(t.ops[0], (ast.In, ast.NotIn)):
+                    return True
+                return any(is_self_attr(x, "mode") for x in (
+                    t.left, t.comparators[0]))
+            return False
         mode_dels = []
         for d in dels:
             gs = [a for a in ancestors(d) if isinstance(a, ast.If)
-                  and any(is_self_attr(x, "mode") for x in ast.walk(a.test))]
+                  and any(is_self_attr(x, "mode") for x in ast.walk(a.test))
+                  and pure_mode_test(a.test)]
             if gs:
                 mode_dels.append((d, gs[-1]))
         if not mode_dels:
@@ -3709,6 +3953,40 @@ def _log_reader_guard_clauses(src):
         "        return log\n") + src[b + len("        return log\n"):]
 
 
+def _ragged_in_module_helper(src):
+    first = "        if grp not in self._group_sizes:\n"
+    last = "            self._group_sizes[grp] += 1\n"
+    a = src.find(first)
+    b = src.find(last, a)
+    if a < 0 or b < 0:
+        return src
+    b += len(last)
+    body = src[a:b].replace("self._group_sizes", "group_sizes").replace(
+        "self.compression_kwargs", "compression_kwargs")
+    body = "".join(line[4:] if line.strip() else line
+                   for line in body.splitlines(True))
+    src = src[:a] + ("        _append_ragged_entries(grp, data, "
+                     "self._group_sizes,\n"
+                     "                               "
+                     "self.compression_kwargs)\n") + src[b:]
+    return src + ("\n\ndef _append_ragged_entries(grp, data, group_sizes, "
+                  "compression_kwargs):\n" + body)
+
+
+def _width_by_chain(src, measured="lines_as_bytes"):
+    new = _lines_by_comprehension(src)
+    return new.replace(
+        "        max_length = max([100] + [len(lbytes) for lbytes in "
+        "lines_as_bytes])\n",
+        "        min_length = 100\n"
+        "        max_length = max(\n"
+        f"            itertools.chain([min_length], map(len, {measured})))\n")
+
+
+def _width_by_chain_raw(src):
+    return _width_by_chain(src, measured="lines")
+
+
 MUTANTS = [
     # R1.1
     ("ndarray: offset read after the resize", WR,
@@ -3853,6 +4131,12 @@ MUTANTS = [
      _dtype_first_match_suffix, "R1.5"),
     ("while-loop tiling skips a single remaining event", WR,
      _chunk_while_loop_bad_guard, "R1.2"),
+    ("chained width expression measures the unencoded lines", WR,
+     _width_by_chain_raw, "R1.3"),
+    ("wider-dtype re-creation only in append mode", WR,
+     ('            if (txt_dset.dtype.kind == "S"\n',
+      '            if (self.mode == "append"\n'
+      '                    and txt_dset.dtype.kind == "S"\n'), "R1.3"),
     ("metadata equal to the stored value are not rewritten", WR,
      _metadata_skip_equal, "R1.A"),
     ("try/except get-or-create starts an unknown group at 0", WR,
@@ -4022,6 +4306,10 @@ TWINS = [
      WR, _chunk_while_loop),
     ("log reader with guard clauses and early return", LG,
      _log_reader_guard_clauses),
+    ("ragged storage moved into a module-level helper", WR,
+     _ragged_in_module_helper),
+    ("width as max(itertools.chain([min], map(len, encoded)))", WR,
+     _width_by_chain),
 ]
 
 # mutants that re-introduce the repaired defects (apply to the fixed tree)
